@@ -640,8 +640,8 @@ def emit_negative(em, sh, rng, chunk):
     pick = lambda: rng.choice(L)
     fam = lambda: rng.choice(fams)
     # positive control + duplicates: by first-matching key with its own type
-    for _ in range(2):
-        n = rng.randint(1, 4)
+    for hi in (4, 9):
+        n = rng.randint(1, hi)
         es = [sh.first_by_key(pick()["key"]) for _ in range(n)]
         add(fam(), "S", "$S", T, [e["type"] for e in es], [e["key"] for e in es], "control-by-name")
     n = rng.randint(1, 3)
@@ -677,7 +677,7 @@ def emit_negative(em, sh, rng, chunk):
         types[rng.randrange(n)] = ab[0]
         add(fam(), "S", "$S", T, types, [], "missing-type")
     # too few names
-    n = rng.randint(2, 6)
+    n = rng.randint(2, 9)
     es = [sh.first_by_key(pick()["key"]) for _ in range(n)]
     add(fam(), "S", "$S", T, [e["type"] for e in es], [e["key"] for e in es][:rng.randint(1, n - 1)], "short-names")
     # container type parameter that is not a struct
@@ -696,6 +696,15 @@ def emit_negative(em, sh, rng, chunk):
         add(fam(), "S", "$S", T, [e["type"]], [e["key"]], "ptr-embedded")
     for e in rng.sample(ptrs_t, min(1, len(ptrs_t))):
         add(fam(), "S", "$S", T, [e["type"]], [], "ptr-embedded")
+    # too few names hidden behind spare capacity: ForProduct2(names...) with len(names)=1, cap(names)=2
+    # (outside the model, which takes cap == len: printed as a `cap` line, judged by the direct oracle only)
+    two = [e for e in L if sh.first_by_key(e["key"]) is e]
+    if len(two) >= 2:
+        e1, e2 = rng.sample(two, 2)
+        fn = rng.choice(["optics.ForProduct2", "optics.ForSpectrum2"])
+        req = "cap %d %s $S %s %s ; %s [%s]" % (sid, fn[7:], sh.sx(e1["type"]), sh.sx(e2["type"]), e1["key"], e2["key"])
+        chunk.append("\temit(%s, try(func() string {\n\t\tnames := []string{%s, %s}[:1]\n\t\ta, b := %s[%s, %s, %s](names...); _, _ = a, b\n\t\treturn \"ok\"\n\t}))" % (
+            gostrlit(req), gostrlit(e1["key"]), gostrlit(e2["key"]), fn, T, gosrc(e1["type"]), gosrc(e2["type"])))
     # Reflector with foreign dynamic values
     cands = [e for e in L if e["value"] and sh.first_by_key(e["key"]) is e]
     if cands:
@@ -739,16 +748,18 @@ def build(shapes, rng, want):
 
 def parse_output(lines):
     """`req => res` lines → (oracle requests in order, {req: res}, chk lines)."""
-    reqs, chks = [], []
+    reqs, chks, caps = [], [], []
     for ln in lines:
         if " => " not in ln:
             continue
         r, res = ln.split(" => ", 1)
         if r.startswith("chk "):
             chks.append((r[4:], res))
+        elif r.startswith("cap "):
+            caps.append((r, res))
         else:
             reqs.append((r, res))
-    return reqs, chks
+    return reqs, chks, caps
 
 
 # ------------------------------------------------------------------ running batches
@@ -767,6 +778,7 @@ class Batch:
         self.by_sid = {s.sid: s for s in shapes}
         self.impl = self.model = None      # result strings aligned with self.requests
         self.chk = {}                      # request -> direct-oracle verdict printed by the harness
+        self.caps = []                     # spare-capacity probes (request, result), direct oracle only
         self.error = None
 
 
@@ -818,7 +830,7 @@ def run_batches(ctx, oracle, want, sizes, ptr_embed=True, seed_tag=0):
                 b.error = "harness does not build: " + (err or "")[-3000:]
                 return b
             rc, out, err = ctx.run_harness(binp, [], [])
-        got, chks = parse_output(out)
+        got, chks, b.caps = parse_output(out)
         b.chk = dict(chks)
         if rc != 0 or [r for r, _ in got] != [r for r, _ in b.requests]:
             want_reqs = [r for r, _ in b.requests]
